@@ -99,6 +99,7 @@ func c02Live(p Params) func() {
 	n := p.Int("calls", 1)
 	event := p.Get("event", "none")
 	waitChan := p.Get("wait", "done") == "chan"
+	hookFail := p.Get("hookfail", "0") == "1"
 	var reqLen, repLen int
 	body := func(calib bool) func() {
 		return func() {
@@ -106,7 +107,15 @@ func c02Live(p Params) func() {
 			pf := world.Proto(proto)
 			srv := world.NewPeer("json")
 			srv.RouteCallFunc(echoHandler)
-			cli := world.NewPeer("json")
+			var cliPlugins []erpc.Plugin
+			if hookFail {
+				// a calling-side plugin whose post-write stage reports a failure (the request is already on the wire)
+				r := NewRec("postwrite", nil)
+				r.Only = map[string]bool{"postwritecall": true}
+				r.Veto["postwritecall"] = erpc.NewStatus(1000, "post-write hook failed", "")
+				cliPlugins = append(cliPlugins, r)
+			}
+			cli := world.NewPeer("json", cliPlugins...)
 			cs, ss, link := world.Connect(cli, srv, pf)
 			ev := event
 			if calib {
@@ -166,7 +175,7 @@ func c02Live(p Params) func() {
 			srv.Close()
 			vsched.Quiesce()
 			for i, c := range calls {
-				checkCall(i, c, ev == "none")
+				checkCall(i, c, ev == "none" && !hookFail)
 			}
 			if l := vsched.Live(); l != 0 {
 				vsched.Failf("%d goroutines still blocked after both peers were closed: %s", l, vsched.BlockedDesc())
